@@ -454,3 +454,30 @@ Definition stmt_leb (s s' : stmt) : bool :=
 
 (* every statement of m occurs in m', in the same order, with all its import names in order *)
 Definition embedsb (m m' : module) : bool := embb stmt_leb m m'.
+
+(* ---------------------------------------------------------------- the name TYPE_CHECKING is bound before it is tested *)
+(* the import statement binds the name TYPE_CHECKING at module level *)
+Definition binds_tc (i : imp) : bool :=
+  smemb "TYPE_CHECKING" (imp_bound i)
+  || match i with IStar md => String.eqb md "typing" | _ => false end.
+
+(* what the model guarantees: the leading import block (after a docstring) imports TYPE_CHECKING from typing *)
+Definition tc_ready_body (m : module) : bool :=
+  typing_star (top_block m) || typing_has_tc (top_block m).
+Definition tc_ready (m : module) : bool :=
+  match m with
+  | SDoc _ :: r => tc_ready_body r
+  | _ => tc_ready_body m
+  end.
+
+(* what importability needs: every module-level `if TYPE_CHECKING:` is preceded by a module-level statement
+   that binds the name (an import, or an import executed inside a try/if/with block) *)
+Fixpoint tc_before_go (seen : bool) (m : module) : bool :=
+  match m with
+  | [] => true
+  | SImp i :: r => tc_before_go (seen || binds_tc i) r
+  | SIfTC _ :: r => seen && tc_before_go seen r
+  | SComp _ b :: r => tc_before_go (seen || existsb binds_tc (pick CRun b)) r
+  | _ :: r => tc_before_go seen r
+  end.
+Definition tc_before (m : module) : bool := tc_before_go false m.
